@@ -27,7 +27,7 @@ Definition narrow (b : N) : N :=
   let m := f64_man b in
   if e =? 2047 then
     if m =? 0 then sg + 2139095040                       (* infinity *)
-    else sg + 2139095040 + 4194304 + m / 2 ^ 29          (* NaN, quieted *)
+    else sg + 2139095040 + N.lor 4194304 (m / 2 ^ 29)    (* NaN, quieted *)
   else if e =? 0 then sg                                   (* zero and float64 subnormals *)
   else
     let S := 2 ^ 52 + m in
